@@ -42,7 +42,7 @@ func (c08) Cases(tier string) int {
 func (c08) Describe() core.Info {
 	return core.Info{
 		Level:       "exploration",
-		Rule:        "pairs and triples of *related* constants (and atoms over them): a term, an independently rebuilt copy (public constructors, or functional.EvalExpr of the constructor expression), a one-leaf mutation, the same leaves in another kind (1 / 1.0 / \"1\" / time 1 / duration 1, list vs pair nesting, map vs struct with the same entries), maps/structs with permuted entry order (keys include hash-equal distinct constants), and unrelated random terms. Checked: reflexivity, symmetry, transitivity on the triple, Equals => equal Hash and equal String, equal String => Equals, canonical-encoding equality <=> Equals (so the result does not lean on the library's own hash short-cuts). Non-trivial: nesting depth >= 2 or a cross-kind pair; distinct by canonical encoding of the tuple.",
+		Rule:        "pairs and triples of *related* constants (and atoms over them): a term, an independently rebuilt copy (public constructors, or functional.EvalExpr of the constructor expression), a one-leaf mutation, the same leaves in another kind (1 / 1.0 / \"1\" / time 1 / duration 1, list vs pair nesting, map vs struct with the same entries), maps/structs with permuted entry order (keys include hash-equal distinct constants), and unrelated random terms. Checked: reflexivity, symmetry, transitivity on the triple, Equals => equal Hash and equal String, equal String => Equals, canonical-encoding equality <=> Equals (so the result does not lean on the library's own hash short-cuts). Non-trivial: nesting depth >= 2 or a cross-kind pair; distinct by canonical encoding of the tuple. Time and duration leaves are also mirrored across zero and across the second boundary; every case additionally compares a pair and a list cell, a map and a struct built over the very same argument objects (shared structure).",
 		Assumptions: []string{"floats are finite, names come from the lexer's character set (the property's stated domain)", "map keys within one map are pairwise structurally distinct"},
 	}
 }
